@@ -91,6 +91,9 @@ Switches ==
     { WSw("x", c, a, SwWords[i]) : c \in BOOLEAN, a \in {"-", "=", "?", "+"}, i \in DOMAIN SwWords }
     \cup { WSw("1", c, a, w) : c \in BOOLEAN, a \in {"-", "+", "="}, w \in {<<>>, L("b c")} }
     \cup { WSw("?", TRUE, a, L("b")) : a \in {"-", "+"} }
+    \* the word assigns IFS itself: its results are split with the new value
+    \cup { WSw("IFS", c, "=", w) : c \in BOOLEAN, w \in {L(":"), L(" :")} }
+    \cup { WPar("IFS"), DQ(WPar("IFS")) }
     \cup { DQ(WSw("x", c, a, SwWordsDq[i])) : c \in BOOLEAN, a \in {"-", "=", "?", "+"}, i \in DOMAIN SwWordsDq }
     \cup { DQ(L("a") \o WSw("1", c, "-", P("@"))) : c \in BOOLEAN } ))
 
